@@ -182,9 +182,11 @@ class CallMixin:
                     if ck not in self.modcache:
                         r = self.call_value(fv.memo, args, kwargs, node)
                         if isinstance(r, (DictV, ListV, ObjV)):
-                            r.tags = frozenset(r.tags) | {'global'}
+                            r.tags = frozenset(r.tags) | {'global', 'cached'}
                             if isinstance(r, (DictV, ListV)):
                                 r.desc = f'cached result of {fv.fi.name}()'
+                        elif isinstance(r, IntV):
+                            r = IntV(r.lin, frozenset(r.tags) | {'cached'})
                         self.modcache[ck] = r
                     return self.modcache[ck]
                 self.note_unknown(node, f'cached function {fv.fi.name} called with non-constant arguments')
